@@ -31,13 +31,13 @@ class Result:
 # --------------------------------------------------------------------------- stream checks
 STREAM = {
     # prop: (profile, extra harness args quick, extra harness args thorough)
-    "C01": ("c01", [], ["--cases", 2200, "--cost", 3000000]),
-    "C02": ("c02", [], ["--cases", 2200, "--cost", 3000000]),
-    "C03": ("c03", ["--cost", 160000], ["--cases", 2000, "--cost", 1500000]),
-    "C04": ("c04", ["--sweep", "--cases", 120, "--cost", 120000], ["--sweep", "--cases", 1200, "--cost", 1500000]),
-    "C08": ("c08", ["--counts"], ["--counts", "--cases", 2000, "--cost", 3000000]),
-    "C09": ("c09", [], ["--cases", 2200, "--cost", 3000000]),
-    "C13": ("c13", ["--cases", 200, "--cost", 120000], ["--cases", 1500, "--cost", 1500000]),
+    "C01": ("c01", ["--cases", 900, "--cost", 1500000], ["--cases", 9000, "--cost", 30000000, "--bigshare", 40]),
+    "C02": ("c02", ["--cases", 700, "--cost", 1000000], ["--cases", 7000, "--cost", 20000000, "--bigshare", 30]),
+    "C03": ("c03", ["--cases", 500, "--cost", 500000], ["--cases", 4000, "--cost", 8000000, "--bigshare", 10]),
+    "C04": ("c04", ["--sweep", "--cases", 400, "--cost", 500000], ["--sweep", "--cases", 3000, "--cost", 10000000, "--bigshare", 20]),
+    "C08": ("c08", ["--counts", "--cases", 700, "--cost", 1000000], ["--counts", "--cases", 6000, "--cost", 20000000, "--bigshare", 20]),
+    "C09": ("c09", ["--cases", 900, "--cost", 1500000], ["--cases", 9000, "--cost", 30000000, "--bigshare", 40]),
+    "C13": ("c13", ["--cases", 400, "--cost", 400000], ["--cases", 3000, "--cost", 6000000, "--bigshare", 10]),
 }
 
 
